@@ -93,6 +93,9 @@ func deriveCmdLine(t *Trans) *Derived {
 		return nil
 	}
 	pre, post := t.Pre, t.Post
+	if _, ok := pre.headBranch(); !ok {
+		return nil
+	}
 	switch t.Args[0] {
 	case "status":
 		if len(t.Args) != 1 {
@@ -232,6 +235,15 @@ func deriveCmdLine(t *Trans) *Derived {
 					}
 				}
 				want[p] = x.Data
+			}
+			// two tracked paths of which one lies beneath the other cannot both exist on disk
+			es := entriesIn(f[1])
+			for _, a := range es {
+				for _, b := range es {
+					if under(string(a.path), string(b.path)) {
+						blocked = true
+					}
+				}
 			}
 			if blocked {
 				return ""
